@@ -64,6 +64,10 @@ LABELS = ['a', 'ab']
 SIB = 'b'
 # typed / empty components: same value under another type (32=a vs a), 3-byte type number (253=a), empty value (8=)
 LABEL_POOL = ['a', 'ab', '32=a', '8=', '253=a', '32=ab', '32=']
+# text outside ASCII: in the 'uri' / 'strlist' / 'mixed' representations it reaches the library as literal characters of a
+# str (to be read as their UTF-8 bytes), in every other representation as those bytes: one octet in Latin-1 but two in
+# UTF-8 (U+0080..U+00FF), two / three / four octets, and a typed component holding such text
+LABEL_POOL += ['\u00e9', 'caf\u00e9', '\u00ff\u0080', '\u0416', '\u4e2d', '\U0001f600', '32=\u00e9']
 DEPTH = 4
 REPRS = ['uri', 'uri-pct', 'uri-pctl', 'strlist', 'byteslist', 'balist', 'mvlist', 'rwmvlist', 'mixed', 'wire', 'wire-ba', 'wire-mv',
          'wire-rwmv', 'tuple', 'iter']
